@@ -1,0 +1,98 @@
+//go:build verif
+// +build verif
+
+package limiter
+
+// Machine-checked contracts for the limiters (comment-only file).
+//
+// Permit accounting of the concurrent limiter: the buffered channel l.tasks
+// is the semaphore. ghost.chansent[ch] / ghost.chanrecv[ch] count completed
+// sends and receives on ch (maintained by the generator at every send,
+// receive and select arm); permits held = sent - received. Go's channel
+// capacity (a send completes only while fewer than cap(ch) items are
+// buffered) is the assumed run-time fact that turns permit conservation into
+// "never more than maxConcurrentRequests at once".
+
+//@ func NewConcurrentLimiter
+//@   prop C17
+//@   modifies nothing
+//@   requires maxConcurrentRequests >= 0
+//@   ensures [capacity_is_the_limit] result != nil && cap(result.tasks) == maxConcurrentRequests && len(result.tasks) == 0
+//@   ensures [limit_recorded] result.maxConcurrentRequests == maxConcurrentRequests
+
+//@ func (*ConcurrentLimiter).Acquire
+//@   prop C17
+//@   nopanic
+//@   requires l != nil && ghost.donechan[l.tasks] == 0
+//@   modifies ghost.chansent[l.tasks], ghost.chanlen[*], ghost.chanrecv[*]
+//@   ensures [success_takes_one_permit] err == nil ==> ghost.chansent[l.tasks] == old(ghost.chansent[l.tasks]) + 1
+//@   ensures [failure_takes_no_permit] err != nil ==> ghost.chansent[l.tasks] == old(ghost.chansent[l.tasks])
+//@   ensures [failure_is_timeout] err != nil ==> err == core.ErrTimeout && l.timeout > 0
+//@   ensures [never_returns_permits] ghost.chanrecv[l.tasks] == old(ghost.chanrecv[l.tasks])
+
+//@ func (*ConcurrentLimiter).Release
+//@   prop C17
+//@   nopanic
+//@   requires l != nil
+//@   modifies ghost.chanrecv[l.tasks], ghost.chanlen[l.tasks]
+//@   ensures [returns_one_permit] ghost.chanrecv[l.tasks] == old(ghost.chanrecv[l.tasks]) + 1
+//@   ensures [takes_none] ghost.chansent[l.tasks] == old(ghost.chansent[l.tasks])
+
+//@ func (*ConcurrentLimiter).Handler
+//@   prop C17
+//@   havoc
+//@   requires l != nil && ghost.donechan[l.tasks] == 0
+//@   stable l.tasks
+//@   let held0 = ghost.chansent[l.tasks] - ghost.chanrecv[l.tasks]
+//@   oncall next [permit_held_during_call] ghost.chansent[l.tasks] - ghost.chanrecv[l.tasks] == held0 + 1
+//@   ensures [permits_conserved] ghost.chansent[l.tasks] - ghost.chanrecv[l.tasks] == held0
+//@   ensures_panic [permits_conserved_on_panic] ghost.chansent[l.tasks] - ghost.chanrecv[l.tasks] == held0
+//@   ensures [at_most_one_permit_and_one_call] ghost.fwd == old(ghost.fwd) || ghost.fwd == old(ghost.fwd) + 1
+//@   ensures [forwarded_call_held_a_permit] ghost.fwd == old(ghost.fwd) + 1 ==>
+//@       ghost.chansent[l.tasks] == old(ghost.chansent[l.tasks]) + 1
+//@   ensures [rejected_without_permit_or_call] ghost.fwd == old(ghost.fwd) ==>
+//@       err == core.ErrTimeout && ghost.chansent[l.tasks] == old(ghost.chansent[l.tasks])
+//@   ensures [result_passthrough] ghost.fwd == old(ghost.fwd) + 1 ==>
+//@       same(response, ghost.ret_response) && same(err, ghost.ret_err)
+
+// Rate limiter. Floats are treated as reals (listed in the evidence).
+// ghost.clock after the call is the instant `now` read by time.Now().
+// With last = l.next on entry and gap = tokens*interval:
+//   next' = max(last + gap, now - maxPermits*interval)   (up to int64 truncation, < 1ns)
+//   the caller waits until max(now, last); it is rejected with ErrTimeout
+//   exactly when timeout > 0 and last - now > timeout.
+//
+//@ func (*RateLimiter).Acquire
+//@   prop C17
+//@   nopanic
+//@   modifies l.next, ghost.clock, ghost.chanrecv[*], ghost.chanlen[*]
+//@   requires l != nil && l.interval > 0.0 && tokens >= 0 && l.maxPermits >= 0.0
+//@   let last = l.next
+//@   ensures [timeout_only_when_wait_exceeds] err != nil ==>
+//@       err == core.ErrTimeout && l.timeout > 0 && last - ghost.clock > l.timeout
+//@   ensures [timeout_whenever_wait_exceeds] l.timeout > 0 && last - ghost.clock > l.timeout ==> err == core.ErrTimeout
+//@   ensures [tokens_consumed_unclamped] to_real(ghost.clock - last) / l.interval - to_real(tokens) <= l.maxPermits ==>
+//@       to_real(l.next) - (to_real(last) + to_real(tokens) * l.interval) < 1.0 &&
+//@       to_real(l.next) - (to_real(last) + to_real(tokens) * l.interval) > -1.0
+//@   ensures [burst_clamped] to_real(ghost.clock - last) / l.interval - to_real(tokens) > l.maxPermits ==>
+//@       to_real(l.next) - (to_real(ghost.clock) - l.maxPermits * l.interval) < 1.0 &&
+//@       to_real(l.next) - (to_real(ghost.clock) - l.maxPermits * l.interval) > -1.0
+//@   ensures [tokens_consumed_even_on_timeout] to_real(l.next) >= to_real(last) + to_real(tokens) * l.interval - 1.0
+
+//@ func (*RateLimiter).IOHandler
+//@   prop C17
+//@   havoc
+//@   requires l != nil && l.interval > 0.0 && l.maxPermits >= 0.0
+//@   ensures [at_most_one_call] ghost.fwd == old(ghost.fwd) || ghost.fwd == old(ghost.fwd) + 1
+//@   ensures [rejected_means_timeout_and_no_call] ghost.fwd == old(ghost.fwd) ==> err == core.ErrTimeout
+//@   ensures [result_passthrough] ghost.fwd == old(ghost.fwd) + 1 ==>
+//@       same(response, ghost.ret_response) && same(err, ghost.ret_err)
+
+//@ func (*RateLimiter).InvokeHandler
+//@   prop C17
+//@   havoc
+//@   requires l != nil && l.interval > 0.0 && l.maxPermits >= 0.0
+//@   ensures [at_most_one_call] ghost.fwd == old(ghost.fwd) || ghost.fwd == old(ghost.fwd) + 1
+//@   ensures [rejected_means_timeout_and_no_call] ghost.fwd == old(ghost.fwd) ==> err == core.ErrTimeout
+//@   ensures [result_passthrough] ghost.fwd == old(ghost.fwd) + 1 ==>
+//@       same(result, ghost.ret_result) && same(err, ghost.ret_err)
